@@ -598,6 +598,11 @@ class TreeTensorNetwork(TreeStructure):
                                   axes=(node.open_legs, tensor_legs))
         # The leg ordering was not changed here
         self.tensors[node_id] = new_tensor
+        if self.orthogonality_center_id is not None \
+                and self.orthogonality_center_id != node_id:
+            # An operator applied away from the orthogonality center
+            # means the network is in general no longer in canonical form.
+            self.orthogonality_center_id = None
 
     def change_node_identifier(self, new_node_id: str, old_node_id: str):
         """
